@@ -479,6 +479,13 @@ func applyOp(st *tsdb.Store, db string, id uint64, o op) error {
 		return st.DeleteSeries(db, []influxql.Source{&influxql.Measurement{Name: "m"}}, expr)
 	case "snapshot":
 		return engineOf(st, id).WriteSnapshot()
+	case "snapfail":
+		// a cache snapshot whose write fails: the cache retains it, later writes go to the live cache
+		e := engineOf(st, id)
+		e.Compactor.DisableSnapshots()
+		e.WriteSnapshot()
+		e.Compactor.EnableSnapshots()
+		return nil
 	case "compact":
 		e := engineOf(st, id)
 		var paths []string
@@ -712,6 +719,23 @@ func observeDir(dir, scratch string) ([]fileObs, error) {
 	return res, nil
 }
 
+// observeParts: the cache split into the snapshot part (retained after a failed write) and the live store
+func observeParts(e *tsm1.Engine) (retained, live map[string][]tv) {
+	conv := func(m map[string]tsm1.Values) map[string][]tv {
+		res := map[string][]tv{}
+		for k, vals := range m {
+			out := make([]tv, len(vals))
+			for i, v := range vals {
+				out[i] = tv{v.UnixNano(), coqValueOf(v)}
+			}
+			res[k] = out
+		}
+		return res
+	}
+	sn, lv := e.Cache.VerifParts()
+	return conv(sn), conv(lv)
+}
+
 func observeCache(e *tsm1.Engine) map[string][]tv {
 	res := map[string][]tv{}
 	for _, k := range e.Cache.Keys() {
@@ -905,6 +929,8 @@ func injectExtra(data []byte, base string, extra int) []byte {
 type result struct {
 	srcFiles    []fileObs
 	srcCache    map[string][]tv
+	srcRetained map[string][]tv
+	retStem     string
 	srcBefore   map[string][]tv
 	srcAfter    map[string][]tv
 	members     []memberObs
@@ -1006,6 +1032,7 @@ func runCase(o *hx.Out, ev *env, d caseDesc, origin string) {
 	// deterministic mtimes for the since filter: i-th member (name order) gets base + 10*i s
 	if d.Mode == "since" {
 		eng.WriteSnapshot() // the backup's own snapshot would create a file with the current time
+		eng.WriteSnapshot() // (a snapshot retained by a failed write goes first, the live cache second)
 		names, _ := filepath.Glob(filepath.Join(shDir, "*.t*"))
 		sort.Strings(names)
 		for i, p := range names {
@@ -1018,8 +1045,14 @@ func runCase(o *hx.Out, ev *env, d caseDesc, origin string) {
 	if r.srcFiles, err = observeDir(shDir, scratch); err != nil {
 		panic(err)
 	}
-	r.srcCache = observeCache(eng)
+	r.srcRetained, r.srcCache = observeParts(eng)
 	r.nextStem = tsm1.DefaultFormatFileName(eng.FileStore.CurrentGeneration()+1, 1)
+	if len(r.srcRetained) > 0 {
+		// the retained snapshot is written out first, under the next name; the backup's own snapshot follows
+		r.retStem = r.nextStem
+		r.nextStem = tsm1.DefaultFormatFileName(eng.FileStore.CurrentGeneration()+2, 1)
+		o.Count("source:retained-snapshot")
+	}
 	r.srcBefore, _ = readShard(ev.src, id)
 	var busyRelease chan struct{}
 	var busySnapDone chan error
@@ -1130,7 +1163,7 @@ func runCase(o *hx.Out, ev *env, d caseDesc, origin string) {
 	} else {
 		// obtain the archive bytes the source WOULD send (to locate member boundaries); the
 		// copy itself pulls a second, identical backup through the proxy
-		if !d.SnapOff || len(r.srcCache) == 0 {
+		if !d.SnapOff || len(r.srcCache)+len(r.srcRetained) == 0 {
 			berr = ev.src.BackupShard(id, time.Time{}, &archive)
 		}
 	}
@@ -1646,9 +1679,9 @@ func emit(o *hx.Out, d caseDesc, r *result, origin string) {
 	for _, p := range d.During {
 		during = append(during, fmt.Sprintf("(%s, (%s, %s))", hx.CoqStr(keyOf(p.S, p.F)), hx.CoqZ(p.T), coqValue(valueOf(p.F, p.V))))
 	}
-	coq := fmt.Sprintf("mk_case %d %s %s %s %s %s %s %s %s %s %s %s %s %s %s %s %s %s %s %s %s %s %s %s %s",
+	coq := fmt.Sprintf("mk_case %d %s %s %s %s %s %s %s %s %s %s %s %s %s %s %s %s %s %s %s %s %s %s %s %s %s %s",
 		mode,
-		coqFiles(r.srcFiles), coqKVs(r.srcCache), fmt.Sprint(snapMode(r.busy, d.SnapOff)),
+		coqFiles(r.srcFiles), coqKVs(r.srcCache), coqKVs(r.srcRetained), hx.CoqStr(r.retStem), fmt.Sprint(snapMode(r.busy, d.SnapOff)),
 		hx.CoqStr(r.nextStem), hx.CoqStr(r.base),
 		hx.CoqZ(since), hx.CoqZ(d.ExLo), hx.CoqZ(d.ExHi), hx.CoqZ(r.cutAt), hx.CoqZ(r.total),
 		hx.CoqZ(int64(r.srcFail)), hx.CoqBool(r.srcFailOpen),
@@ -1657,7 +1690,7 @@ func emit(o *hx.Out, d caseDesc, r *result, origin string) {
 		hx.CoqBool(r.backupErr), coqMembers(r.members), hx.CoqBool(r.archiveOK),
 		hx.CoqBool(r.restoreErr), hx.CoqBool(r.dstExists && r.dstReadable), coqKVs(r.dst),
 		hx.CoqList(dstNames), hx.CoqBool(r.advertised))
-	ntomb, ncache, nfiles := 0, len(r.srcCache), len(r.srcFiles)
+	ntomb, ncache, nfiles := 0, len(r.srcCache)+len(r.srcRetained), len(r.srcFiles)
 	for _, f := range r.srcFiles {
 		ntomb += len(f.Tombs)
 	}
@@ -1784,7 +1817,10 @@ func genOps(r *hx.Rand) []op {
 			}
 			ops = append(ops, op{Kind: "delete", Series: ser, Lo: lo, Hi: hi})
 		case k < 9:
-			if snaps < 6 {
+			if r.Chance(12) {
+				// a failed cache snapshot followed by more writes: retained snapshot + live cache
+				ops = append(ops, op{Kind: "snapfail"}, op{Kind: "write", Pts: genPts(r, 1+r.Intn(4), tmax)})
+			} else if snaps < 6 {
 				ops = append(ops, op{Kind: "snapshot"})
 				snaps++
 			}
@@ -1909,6 +1945,7 @@ func designed() []caseDesc {
 		ds = append(ds,
 			caseDesc{Mode: mode, CutMember: -1},                                                          // empty shard
 			caseDesc{Mode: mode, CutMember: -1, Ops: []op{w(pt{0, 0, 1, 2}, pt{2, 3, 5, 1})}},             // cache only
+			caseDesc{Mode: mode, CutMember: -1, Ops: []op{w(pt{0, 0, 1, 2}, pt{1, 1, 3, 5}), {Kind: "snapfail"}, w(pt{0, 0, 2, 4}, pt{2, 3, 5, 1})}}, // retained snapshot + live cache
 			caseDesc{Mode: mode, CutMember: -1, Ops: base},                                                // one file
 			caseDesc{Mode: mode, CutMember: -1, Ops: tomb},                                                // pending tombstone
 			caseDesc{Mode: mode, CutMember: -1, Ops: append(append([]op{}, tomb...), w(pt{0, 0, 2, 6}))}, // rewrite after delete, in cache
